@@ -975,12 +975,12 @@ def plan(quick):
     else:
         for root in roots("tc", quick):
             jobs.append(("tc", "shapes", root, 4))
-            jobs.append(("tc", "numeric", root, 4))
             if root["reg"] == "warm":
-                jobs.append(("tc", "containers", root, 4))
+                jobs.append(("tc", "numeric", root, 4))
+                jobs.append(("tc", "containers", root, 3))
         for root in roots("ts", quick):
             jobs.append(("ts", "shapes", root, 3))
-            if root["reg"] in ("warm", "part"):
+            if root["reg"] == "warm" and root["init"] in ([0], [0, 2]):
                 jobs.append(("ts", "numeric", root, 3))
     return jobs
 
